@@ -86,7 +86,11 @@ def _o1_run(chk, m, mname, run):
             width = sp.expand(hi2 - lo2)
             disp = sp.expand(lo2 - B)
             if B in width.free_symbols or B in disp.free_symbols:
-                chk.undecided("O1", key, w, "bounds are not offset + constant")
+                los = e.d.get("lo_src")
+                if B in width.free_symbols and los and los.isidentifier() and not _off_syms(lo):
+                    chk.violation("O1", key, w, "the lower bound '%s' is never advanced in the loop while the upper bound advances by %s per iteration: the blocks of successive surfaces overlap" % (los, adv))
+                else:
+                    chk.undecided("O1", key, w, "bounds are not offset + constant")
                 continue
             if sp.expand(width - adv) != 0:
                 chk.violation(
